@@ -86,8 +86,12 @@ def py_pipe_axis(n, target, out, eff, s):
     return A, K, out, exact
 
 
-def py_selectors(H, W, mh, mw, s, pts):
-    """-> (F11?, [F11b? per keypoint]) for the pipelines size matcher -> resizer -> (crop/pad)."""
+SEL_MARGIN = F(9, 10)      # classification of a MEASURED failure (>= 1 px) allows 0.1 px of measurement tolerance
+
+
+def py_selectors(H, W, mh, mw, s, pts, margin=SEL_MARGIN):
+    """-> (F11?, [F11b? per keypoint]) for the pipelines size matcher -> resizer -> (crop/pad).
+    margin=1 is exactly Geometry.selector_F11b (cross-checked against Coq)."""
     r = py_sizematcher(H, W, mh, mw)
     if r is None:
         return False, [False] * len(pts)
@@ -104,7 +108,7 @@ def py_selectors(H, W, mh, mw, s, pts):
             continue
         ex = abs(ap(ax[0], p[0]) - ap(ax[1], p[0]))
         ey = abs(ap(ay[0], p[1]) - ap(ay[1], p[1]))
-        out.append(ex >= 1 or ey >= 1)
+        out.append(ex >= margin or ey >= margin)
     return f11, out
 
 
@@ -784,8 +788,9 @@ def check_full_output(I, c, m, o, imgs_out, pts_out, pts_in, unit=1.0, label="")
         if not kp_close(a, b):
             o.d(f"{label}keypoint {k}: impl {a} model {b}")
     f11, f11b = py_selectors(c["H"], c["W"], c["mh"], c["mw"], s, pts_in)
-    if bool(m[0][3]) != f11 or bool(m[0][4]) != any(f11b):
-        o.d(f"{label}selectors: python {(f11, any(f11b))} coq {(m[0][3], m[0][4])}")
+    f11x, f11bx = py_selectors(c["H"], c["W"], c["mh"], c["mw"], s, pts_in, margin=F(1))
+    if bool(m[0][3]) != f11x or bool(m[0][4]) != any(f11bx):
+        o.d(f"{label}selectors: python {(f11x, any(f11bx))} coq {(m[0][3], m[0][4])}")
     return registration(I, o, imgs_out if len(imgs_out) == 3 else imgs_out[0], (c["H"], c["W"]), pts_in, pts_out,
                         f11, f11b, model_affs(m), unit, label, slack=ripple(c["H"], c["W"], c["mh"], c["mw"], c["s"]))
 
@@ -830,8 +835,9 @@ def check_centered_output(I, c, m, o, imgs_out, pts_out, pts_in, unit=1.0, label
         if not kp_close(a, b):
             o.d(f"{label}keypoint {k}: impl {a} model {b}")
     f11, f11b = py_selectors(c["H"], c["W"], c["mh"], c["mw"], c["s"], pts_in)
-    if bool(m[0][3]) != f11 or bool(m[0][4]) != any(f11b):
-        o.d(f"{label}selectors: python {(f11, any(f11b))} coq {(m[0][3], m[0][4])}")
+    f11x, f11bx = py_selectors(c["H"], c["W"], c["mh"], c["mw"], c["s"], pts_in, margin=F(1))
+    if bool(m[0][3]) != f11x or bool(m[0][4]) != any(f11bx):
+        o.d(f"{label}selectors: python {(f11x, any(f11bx))} coq {(m[0][3], m[0][4])}")
     return registration(I, o, imgs_out if len(imgs_out) == 3 else imgs_out[0], (c["H"], c["W"]), pts_in, pts_out,
                         f11, f11b, model_affs(m), unit, label, slack=ripple(c["H"], c["W"], c["mh"], c["mw"], c["s"]))
 
@@ -1216,8 +1222,8 @@ def second_pass_terms(c):
 
 def mix(thorough):
     if thorough:
-        return {"sizematch": 500, "resize": 500, "pad": 200, "bbox": 150, "crop": 350, "full": 500, "centered": 300,
-                "cropsize": 300, "aug": 200, "ds_full": 150, "ds_centered": 90}
+        return {"sizematch": 2000, "resize": 2000, "pad": 400, "bbox": 300, "crop": 1400, "full": 2000, "centered": 1200,
+                "cropsize": 1000, "aug": 900, "ds_full": 700, "ds_centered": 450}
     return {"sizematch": 120, "resize": 120, "pad": 40, "bbox": 30, "crop": 90, "full": 110, "centered": 70,
             "cropsize": 80, "aug": 60, "ds_full": 60, "ds_centered": 40}
 
